@@ -3,7 +3,7 @@ pub mod frspec {
 use vstd::prelude::*;
 use crate::duckscript::types::runtime::StateValue;
 use crate::duckscriptsdk::sspec::*;
-use crate::duckscriptsdk::fspec::{has_unum, has_str, ctx_key, ctx_name, lemma_skey_inj};
+use crate::duckscriptsdk::fspec::{has_unum, has_str, ctx_key, ctx_name, lemma_skey_inj, fn_key, fn_stack, fn_state};
 use crate::duckscriptsdk::ifspec::end_key;
 use crate::trusted::*;
 broadcast use crate::trusted::strings;
@@ -18,21 +18,26 @@ pub open spec fn loop_back(state: Map<String, StateValue>) -> Option<usize> {
     if frst(state).contains_key(skey("loop_back"@)) && frst(state)[skey("loop_back"@)] is UnsignedNumber { Some(frst(state)[skey("loop_back"@)]->UnsignedNumber_0) } else { None }
 }
 pub struct LMV { pub start: usize, pub end: usize }
-/// a running loop: how many elements have been handed out, its block, its context
-pub struct LCV { pub iteration: usize, pub meta: LMV, pub ctx: Seq<char> }
+/// a running loop: how many elements have been handed out, its block, its context, and how many function calls
+/// were in progress when it was entered (a recursive call runs the same lines: its loops are not the caller's)
+pub struct LCV { pub iteration: usize, pub meta: LMV, pub ctx: Seq<char>, pub depth: usize }
+/// the number of function calls in progress
+pub open spec fn fn_depth(state: Map<String, StateValue>) -> int { fn_stack(state).len() as int }
 pub open spec fn fmeta_view(m: Map<String, StateValue>) -> Option<LMV> {
     if has_unum(m, "start"@) && has_unum(m, "end"@) { Some(LMV { start: m[skey("start"@)]->UnsignedNumber_0, end: m[skey("end"@)]->UnsignedNumber_0 }) } else { None }
 }
 pub open spec fn fci_view(m: Map<String, StateValue>) -> Option<LCV> {
-    if has_unum(m, "iteration"@) && m.contains_key(skey("meta_info"@)) && m[skey("meta_info"@)] is SubState && fmeta_view(m[skey("meta_info"@)]->SubState_0@) is Some && has_str(m, "line_context_name"@) {
-        Some(LCV { iteration: m[skey("iteration"@)]->UnsignedNumber_0, meta: fmeta_view(m[skey("meta_info"@)]->SubState_0@)->0, ctx: m[skey("line_context_name"@)]->String_0@ })
+    if has_unum(m, "iteration"@) && m.contains_key(skey("meta_info"@)) && m[skey("meta_info"@)] is SubState && fmeta_view(m[skey("meta_info"@)]->SubState_0@) is Some && has_str(m, "line_context_name"@) && has_unum(m, "call_depth"@) {
+        Some(LCV { iteration: m[skey("iteration"@)]->UnsignedNumber_0, meta: fmeta_view(m[skey("meta_info"@)]->SubState_0@)->0, ctx: m[skey("line_context_name"@)]->String_0@, depth: m[skey("call_depth"@)]->UnsignedNumber_0 })
     } else { None }
 }
-pub open spec fn fr_matches(c: LCV, line: usize, ctx: Seq<char>) -> bool { (c.meta.start == line || c.meta.end == line) && c.ctx == ctx }
+/// C05 "every later call starts afresh ... including recursive calls": an entry is the loop of the `for` / end at
+/// `line` only for the call it was entered in
+pub open spec fn fr_matches(c: LCV, line: usize, ctx: Seq<char>, depth: int) -> bool { (c.meta.start == line || c.meta.end == line) && c.ctx == ctx && c.depth == depth }
 /// popping for the `for` / end at `line`. recursive (the end command): entries of other loops are discarded.
 /// Not recursive (the `for` line looping back): only the top entry is looked at and it is put back when it
 /// belongs to another loop. `st1` is the stack afterwards.
-pub open spec fn fpop_rel(st: Seq<StateValue>, line: usize, ctx: Seq<char>, recursive: bool, r: Option<LCV>, st1: Seq<StateValue>) -> bool
+pub open spec fn fpop_rel(st: Seq<StateValue>, line: usize, ctx: Seq<char>, depth: int, recursive: bool, r: Option<LCV>, st1: Seq<StateValue>) -> bool
     decreases st.len()
 {
     if st.len() == 0 { r is None && st1 =~= st }
@@ -42,30 +47,47 @@ pub open spec fn fpop_rel(st: Seq<StateValue>, line: usize, ctx: Seq<char>, recu
         if top is SubState {
             match fci_view(top->SubState_0@) {
                 Some(c) =>
-                    if fr_matches(c, line, ctx) { r == Some(c) && st1 =~= rest }
-                    else if recursive { fpop_rel(rest, line, ctx, recursive, r, st1) }
+                    if fr_matches(c, line, ctx, depth) { r == Some(c) && st1 =~= rest }
+                    else if recursive { fpop_rel(rest, line, ctx, depth, recursive, r, st1) }
                     else { r is None && st1.len() == rest.len() + 1 && st1.drop_last() =~= rest && st1.last() is SubState && fci_view(st1.last()->SubState_0@) == Some(c) },
                 None => r is None && st1 =~= rest,
             }
-        } else { fpop_rel(rest, line, ctx, recursive, r, st1) }
+        } else { fpop_rel(rest, line, ctx, depth, recursive, r, st1) }
     }
 }
 
 /// what the non-recursive pop (the `for` line looping back) finds: only the topmost sub-state entry counts
-pub open spec fn ftop(st: Seq<StateValue>, line: usize, ctx: Seq<char>) -> Option<LCV>
+pub open spec fn ftop(st: Seq<StateValue>, line: usize, ctx: Seq<char>, depth: int) -> Option<LCV>
     decreases st.len()
 {
     if st.len() == 0 { None }
     else if st.last() is SubState {
-        match fci_view(st.last()->SubState_0@) { Some(c) => if fr_matches(c, line, ctx) { Some(c) } else { None }, None => None }
-    } else { ftop(st.drop_last(), line, ctx) }
+        match fci_view(st.last()->SubState_0@) { Some(c) => if fr_matches(c, line, ctx, depth) { Some(c) } else { None }, None => None }
+    } else { ftop(st.drop_last(), line, ctx, depth) }
 }
-pub proof fn lemma_ftop(st: Seq<StateValue>, line: usize, ctx: Seq<char>, r: Option<LCV>, st1: Seq<StateValue>)
-    requires fpop_rel(st, line, ctx, false, r, st1)
-    ensures r == ftop(st, line, ctx)
+pub proof fn lemma_ftop(st: Seq<StateValue>, line: usize, ctx: Seq<char>, depth: int, r: Option<LCV>, st1: Seq<StateValue>)
+    requires fpop_rel(st, line, ctx, depth, false, r, st1)
+    ensures r == ftop(st, line, ctx, depth)
     decreases st.len()
 {
-    if st.len() > 0 && !(st.last() is SubState) { lemma_ftop(st.drop_last(), line, ctx, r, st1); }
+    if st.len() > 0 && !(st.last() is SubState) { lemma_ftop(st.drop_last(), line, ctx, depth, r, st1); }
+}
+/// Layer B (C05, recursion): whatever a deeper or shallower call left on the stack of running loops, the end of a
+/// loop never resumes it - the entry it finds was entered at the current call depth, for this line, in this context
+pub proof fn thm_loop_of_this_call_only(st: Seq<StateValue>, line: usize, ctx: Seq<char>, depth: int, recursive: bool, r: Option<LCV>, st1: Seq<StateValue>)
+    requires fpop_rel(st, line, ctx, depth, recursive, r, st1)
+    ensures r matches Some(c) ==> c.depth == depth && c.ctx == ctx && (c.meta.start == line || c.meta.end == line), st1.len() <= st.len(),
+    decreases st.len()
+{
+    if st.len() > 0 {
+        let top = st.last();
+        if top is SubState {
+            match fci_view(top->SubState_0@) {
+                Some(c) => if !fr_matches(c, line, ctx, depth) && recursive { thm_loop_of_this_call_only(st.drop_last(), line, ctx, depth, recursive, r, st1); },
+                None => {},
+            }
+        } else { thm_loop_of_this_call_only(st.drop_last(), line, ctx, depth, recursive, r, st1); }
+    }
 }
 
 pub proof fn lemma_other_key2(s0: Map<String, StateValue>, s1: Map<String, StateValue>, k1: String, k2: String, j: String)
@@ -84,8 +106,13 @@ pub proof fn lemma_other_key3(s0: Map<String, StateValue>, s1: Map<String, State
     assert(s1.remove(k1).remove(k2).remove(k3).contains_key(j) == s1.contains_key(j));
     if s0.contains_key(j) { assert(s0.remove(k1).remove(k2).remove(k3)[j] == s0[j]); assert(s1.remove(k1).remove(k2).remove(k3)[j] == s1[j]); }
 }
+/// the function call stack was at most read (reading materialises its empty containers)
+pub open spec fn fn_stack_read(s0: Map<String, StateValue>, s1: Map<String, StateValue>) -> bool {
+    fn_stack(s1) == fn_stack(s0) && fn_state(s1).remove(skey("call_stack"@)) =~= fn_state(s0).remove(skey("call_stack"@))
+}
 pub open spec fn only_fr_stack_changed(s0: Map<String, StateValue>, s1: Map<String, StateValue>) -> bool {
-    &&& s1.remove(fr_key()).remove(ctx_key()) =~= s0.remove(fr_key()).remove(ctx_key())
+    &&& s1.remove(fr_key()).remove(ctx_key()).remove(fn_key()) =~= s0.remove(fr_key()).remove(ctx_key()).remove(fn_key())
+    &&& fn_stack_read(s0, s1)
     &&& ctx_name(s1) == ctx_name(s0)
     &&& is_sub(s1, fr_key())
     &&& frst(s1).remove(skey("call_stack"@)) =~= frst(s0).remove(skey("call_stack"@))
@@ -117,5 +144,23 @@ pub proof fn lemma_fr_keys_distinct()
     lemma_skey_inj("handles"@, concat_spec("duckscriptsdk::command"@, "end"@));
     lemma_skey_inj("meta_info"@, "call_stack"@); lemma_skey_inj("meta_info"@, "loop_back"@); lemma_skey_inj("call_stack"@, "loop_back"@);
     lemma_skey_inj("start"@, "end"@); lemma_skey_inj("meta_info"@, "line_context_name"@); lemma_skey_inj("iteration"@, "meta_info"@); lemma_skey_inj("iteration"@, "line_context_name"@);
+}
+/// the function module's state key and the call-depth field are distinct from the keys used here
+pub proof fn lemma_fn_keys_distinct()
+    ensures fr_key() != fn_key(), fn_key() != ctx_key(), fn_key() != end_key(), fn_key() != skey("handles"@),
+        skey("call_depth"@) != skey("iteration"@), skey("call_depth"@) != skey("meta_info"@), skey("call_depth"@) != skey("line_context_name"@),
+{
+    reveal_strlit("duckscriptsdk::runtime"); reveal_strlit("line_context_name"); reveal_strlit("duckscriptsdk::command"); reveal_strlit("forin");
+    reveal_strlit("end"); reveal_strlit("::"); reveal_strlit("meta_info"); reveal_strlit("handles"); reveal_strlit("iteration"); reveal_strlit("function"); reveal_strlit("call_depth");
+    assert(concat_spec("duckscriptsdk::runtime"@, "line_context_name"@).len() == 41);
+    assert(concat_spec("duckscriptsdk::command"@, "forin"@).len() == 29);
+    assert(concat_spec("duckscriptsdk::command"@, "end"@).len() == 27);
+    assert(concat_spec("duckscriptsdk::command"@, "function"@).len() == 32);
+    assert("call_depth"@.len() == 10 && "meta_info"@.len() == 9 && "line_context_name"@.len() == 17 && "handles"@.len() == 7 && "iteration"@.len() == 9);
+    lemma_skey_inj(concat_spec("duckscriptsdk::command"@, "forin"@), concat_spec("duckscriptsdk::command"@, "function"@));
+    lemma_skey_inj(concat_spec("duckscriptsdk::command"@, "function"@), concat_spec("duckscriptsdk::runtime"@, "line_context_name"@));
+    lemma_skey_inj(concat_spec("duckscriptsdk::command"@, "function"@), concat_spec("duckscriptsdk::command"@, "end"@));
+    lemma_skey_inj(concat_spec("duckscriptsdk::command"@, "function"@), "handles"@);
+    lemma_skey_inj("call_depth"@, "iteration"@); lemma_skey_inj("call_depth"@, "meta_info"@); lemma_skey_inj("call_depth"@, "line_context_name"@);
 }
 } // mod frspec
